@@ -102,12 +102,16 @@ class _StdApi:
                     # the table of the API object this class belongs to
                     # (not the module-level default API's)
                     opc = api_opc
+                # dup_lines is an xdis extension (a line is reported again
+                # each time it restarts); the dis drop-in reports each line
+                # start once, as dis.Bytecode does.
                 _Bytecode.__init__(
                     self,
                     x,
                     opc=opc,
                     first_line=first_line,
                     current_offset=current_offset,
+                    dup_lines=False,
                 )
 
         self.Bytecode = Bytecode
